@@ -27,7 +27,7 @@ Verdict(rec) ==
        ELSE IF rec.out # "table" THEN <<"viol", "C02:fails">>
        ELSE IF rec.exact # 1 THEN <<"viol", "C02:inexact">>
        ELSE IF \E p \in Off : TabP[p] # C[p] THEN <<"viol", "C02:entries">>
-       ELSE IF \E p \in Off : TabB[p] # TabP[p] THEN <<"viol", "C02:positions-vs-bucket-ids">>
+       ELSE IF \E p \in Off : TabB[p] # TabP[p] THEN <<"viol", "C02:same-table-from-every-entry-point">>
        ELSE IF \E p \in Off : TabP[p][1] # TabP[<<p[2], p[1]>>][2] \/ TabP[p][3] # TabP[<<p[2], p[1]>>][3]
             THEN <<"viol", "C02:mirror">>
        ELSE IF \E k \in DOMAIN rec.cs :
